@@ -79,3 +79,55 @@ MANIFEST_TEXT["C20"] = dict(
     note=_BASE_NOTE + "The Windows-only path-separator branch is not modelled.",
     technique="Lean 4 proof (simulation over the id map, invariant by induction) + differential correspondence",
 )
+
+_RECV_RULE = ("receiver suite: streams from a guest simulator (announcements incl. repeats, spans with contextual/explicit "
+              "parents, nested / re-entrant / non-LIFO enters, clones, drops, records, follows-from, events; call sites "
+              "with up to 64 fields), invalid events mixed in (unknown call sites, dead spans, 33..40 values), history "
+              "operations persist keep|lose|losenew and discard at random positions, retry-after-discard shapes, wide "
+              "call sites with > 32 accumulated values across a restart; exhaustive sequences over a 15-symbol alphabet "
+              "up to length 3 (quick) / 5 (thorough). ")
+for _p in ["C02", "C03", "C04", "C06", "C07", "C08"]:
+    PROPS[_p] = dict(suites=[("receiver", {Q: 500, T: 40000})], rule=_RECV_RULE)
+PROPS["C02"]["rule"] += "non-trivial = >= 1 cut with an alive guest span and >= 4 events; distinct by input text"
+PROPS["C03"]["rule"] += "non-trivial = as C02 (cut with alive span), counted over cases; restored presentations are counted in input_distribution"
+PROPS["C04"]["rule"] += "non-trivial = as C02; cases with a span entered at the abort point are counted in input_distribution (nt:entered-at-abort)"
+PROPS["C06"]["rule"] += "non-trivial = >= 1 rejected event while >= 1 span is alive, or a cut with an alive span"
+PROPS["C07"]["rule"] += "non-trivial = >= 1 rejected event while >= 1 span is alive, or a cut with an alive span"
+PROPS["C08"]["rule"] += "non-trivial = as C02"
+
+def _c11_post(prop, results, root):
+    """Validates every JSON document the real serializers produced against the frozen schema."""
+    import subprocess
+    docs = [str(r["dir"] / "wire.docs") for r in results if (r["dir"] / "wire.docs").exists()]
+    if not docs:
+        return [], {}
+    p = subprocess.run([str(root / "bin" / "validate_wire.py")] + docs, capture_output=True, text=True)
+    fails = [l for l in p.stdout.splitlines() if l.startswith("invalid ")]
+    n = [l for l in p.stdout.splitlines() if l.startswith("validated ")]
+    if p.returncode != 0 and not fails:
+        fails = ["invalid schema validator crashed: " + p.stderr[-300:]]
+    return fails, {"schema_validated_documents": int(n[0].split()[1]) if n else 0}
+
+PROPS["C11"] = dict(
+    suites=[("wire", {Q: 600, T: 60000})],
+    post=_c11_post,
+    rule="wire suite: grammar-generated events (every variant), persisted span sets and metadata sets; ids from "
+         "{0, u64::MAX, random 64-bit, small}; values of every kind with 128-bit extremes, 64-bit boundaries, finite floats "
+         "incl. ±0 / subnormals / max / random bit patterns, strings empty / Unicode / escapes / NUL, error chains of depth "
+         "1..5, value sets with 0 and 32 entries; forward: real serde_json::to_string vs model encode (tree comparison); "
+         "backward: real from_str of the canonical document, of field-permuted documents and of documents with duplicate "
+         "keys inside `values` vs model decode; every real document validated against wire/wire-0.2.schema.json and by the "
+         "model's conforms*; non-trivial = an event whose value set has >= 3 entries of >= 3 kinds; distinct by input text",
+    assumptions=["serde_json 1.0.134 with float_roundtrip (exact float round-tripping) is the reference encoding; its text layer "
+                 "(number/string printing and parsing, map-key stringification) is environment; the harness tokenizes the text itself"],
+)
+MANIFEST_TEXT["C11"] = dict(
+    text="Theorems (all ids within 64 bits, all 128-bit integers, all strings, error chains of any depth, value sets of any "
+         "size with distinct names): decode(encode x) = some x for events, value collections, persisted spans and persisted "
+         "metadata (so re-encoding is identical and value order preserved); duplicate keys inside `values` decode by insertion; "
+         "every encoding satisfies the frozen 0.2 shape (conforms*). Model encode/decode tied to the real serde impls by tree "
+         "comparison of real JSON text in both directions, incl. permuted and duplicate-key documents; every real document is "
+         "also validated against the JSON schema kept under /verif/wire.",
+    note=_BASE_NOTE + "The text layer of serde_json is environment (model stops at an abstract JSON tree). Non-finite floats are outside the property (not JSON-representable).",
+    technique="Lean 4 proof (round-trip by structural induction, fuel for error chains) + differential correspondence + JSON-schema validation",
+)
